@@ -78,6 +78,7 @@ type propInfo struct {
 	ThoroughS   int
 	NeedsB      bool // needs the real git-sizer binary
 	NeedsRace   bool // needs the -race binaries
+	Checks      int  // rapid checks per batch (0 = default 25); small for expensive evaluations
 	Assumptions []string
 }
 
@@ -92,20 +93,20 @@ var props = map[string]propInfo{
 	"C02": {Level: "exploration", QuickS: 20, ThoroughS: 600},
 	"C03": {Level: "exploration", QuickS: 20, ThoroughS: 600},
 	"C04": {Level: "exploration", QuickS: 20, ThoroughS: 600},
-	"C05": {Level: "exploration", QuickS: 20, ThoroughS: 600},
+	"C05": {Level: "exploration", QuickS: 20, ThoroughS: 600, Checks: 10},
 	"C06": {Level: "exploration", QuickS: 20, ThoroughS: 600},
 	"C07": {Level: "exploration", QuickS: 20, ThoroughS: 600},
 	"C08": {Level: "exploration", QuickS: 25, ThoroughS: 600},
-	"C09": {Level: "exploration", QuickS: 25, ThoroughS: 600},
-	"C10": {Level: "fault_enumeration", QuickS: 30, ThoroughS: 900, NeedsB: true},
-	"C11": {Level: "exploration", QuickS: 25, ThoroughS: 600},
-	"C13": {Level: "exploration", QuickS: 25, ThoroughS: 600, NeedsB: true},
+	"C09": {Level: "exploration", QuickS: 25, ThoroughS: 600, Checks: 10},
+	"C10": {Level: "fault_enumeration", QuickS: 30, ThoroughS: 900, NeedsB: true, Checks: 10},
+	"C11": {Level: "exploration", QuickS: 25, ThoroughS: 600, Checks: 10},
+	"C13": {Level: "exploration", QuickS: 25, ThoroughS: 600, NeedsB: true, Checks: 5},
 	"C14": {Level: "exploration", QuickS: 25, ThoroughS: 600},
 	"C15": {Level: "exploration", QuickS: 20, ThoroughS: 600},
 	"C16": {Level: "exploration", QuickS: 20, ThoroughS: 600},
-	"C17": {Level: "exploration", QuickS: 30, ThoroughS: 900, NeedsB: true, NeedsRace: true},
+	"C17": {Level: "exploration", QuickS: 25, ThoroughS: 900, NeedsB: true, NeedsRace: true, Checks: 3},
 	"C18": {Level: "exploration", QuickS: 25, ThoroughS: 600},
-	"C19": {Level: "exploration", QuickS: 20, ThoroughS: 600},
+	"C19": {Level: "exploration", QuickS: 20, ThoroughS: 600, Checks: 10},
 	// self tests (not properties)
 	"determinism": {Level: "other", QuickS: 20, ThoroughS: 120},
 	"conformance": {Level: "other", QuickS: 20, ThoroughS: 120},
@@ -250,7 +251,7 @@ func runWorker(simBin string, env []string, prop, tier string, seed uint64, idx,
 	os.MkdirAll(out, 0o755)
 	logf, _ := os.Create(filepath.Join(out, "log"))
 	defer logf.Close()
-	args := []string{"-test.run", "^TestVerifSim$", "-test.cpu", "1", "-test.timeout", "0", "-rapid.nofailfile",
+	args := []string{"-test.run", "^TestVerifSim$", "-test.cpu", "1", "-test.timeout", "0", "-rapid.nofailfile", "-rapid.shrinktime=15s",
 		"-verif.property=" + prop, "-verif.tier=" + tier, "-verif.seed=" + strconv.FormatUint(seed, 10),
 		"-verif.worker=" + strconv.Itoa(idx), "-verif.workers=" + strconv.Itoa(n),
 		"-verif.budget=" + budget.String(), "-verif.out=" + out}
@@ -403,7 +404,11 @@ func main() {
 		go func(i int) {
 			defer wg.Done()
 			ws := splitmix64(seed*0x9e3779b1 + uint64(i))
-			results[i] = runWorker(simBin, env, prop, tier, ws, i, nw, time.Duration(budgetS)*time.Second, filepath.Join(bdir, fmt.Sprintf("w%d", i)))
+			var extra []string
+			if info.Checks > 0 {
+				extra = append(extra, fmt.Sprintf("-verif.checks=%d", info.Checks))
+			}
+			results[i] = runWorker(simBin, env, prop, tier, ws, i, nw, time.Duration(budgetS)*time.Second, filepath.Join(bdir, fmt.Sprintf("w%d", i)), extra...)
 		}(i)
 	}
 	wg.Wait()
